@@ -288,13 +288,16 @@ let run_c11 (c : ctx) (case : string) : string =
     let w = words case in
     let op, src_r =
       (match w with
-       | [("CLONE" | "COPY" | "MOVE") as op; spec] -> op, Ok (build_msg c spec)
-       | [("DCLONE" | "DCOPY" | "DMOVE") as op; mode; hx] -> String.sub op 1 (String.length op - 1), op_dec c mode (nlist_of_hex hx)
+       | [("CLONE" | "COPY" | "MOVE" | "SCOPY" | "SMOVE") as op; spec] -> op, Ok (build_msg c spec)
+       | [("DCLONE" | "DCOPY" | "DMOVE" | "DSCOPY" | "DSMOVE") as op; mode; hx] -> String.sub op 1 (String.length op - 1), op_dec c mode (nlist_of_hex hx)
        | _ -> raise (Bad_case "unknown op")) in
     match stage src_r (dump_msg c) with
     | Error e -> e
     | Ok s0 ->
       let src = (match src_r with Ok m -> m | _ -> assert false) in
+      (* SCOPY / SMOVE: shallow-constructed target *)
+      let deep = not (String.length op > 0 && op.[0] = 'S') in
+      let op = if deep then op else String.sub op 1 (String.length op - 1) in
       (match op with
        | "CLONE" ->
            let cl = clone c src in
@@ -306,7 +309,7 @@ let run_c11 (c : ctx) (case : string) : string =
                 let e2 = enc_text c src in
                 s0 ^ " | " ^ s1 ^ " | " ^ e1 ^ " | " ^ e2)
        | "COPY" ->
-           (match copy_msg c src with
+           (match copy_msg_to deep c src with
             | Ok (((nb, nh), nt), t) ->
                 let s1 = Printf.sprintf "OK %d %d %d %s" (int_of_n nb) (int_of_n nh) (int_of_n nt) (dump_msg c t) in
                 let e1 = enc_text c t in
@@ -315,7 +318,7 @@ let run_c11 (c : ctx) (case : string) : string =
             | OOB _ -> raise Model_crash
             | r -> s0 ^ " | " ^ string_of_res (fun _ -> "") r)
        | _ ->
-           (match move_msg c src with
+           (match move_msg_to deep c src with
             | Ok ((((nb, nh), nt), t), ks) ->
                 let s1 = Printf.sprintf "OK %d %d %d %s" (int_of_n nb) (int_of_n nh) (int_of_n nt) (dump_msg c t) in
                 let e1 = enc_text c t in
@@ -424,6 +427,7 @@ let oracle (case : string) (r : string) : bool =
   try
     let op = (match words case with o :: _ -> o | [] -> "") in
     let op = if String.length op > 0 && op.[0] = 'D' then String.sub op 1 (String.length op - 1) else op in
+    let op = if String.length op > 0 && op.[0] = 'S' then String.sub op 1 (String.length op - 1) else op in
     match split_stages r with
     | [s] -> not (is_ok s) && String.length s >= 4 && String.sub s 0 4 = "EXC "
     | stages when List.for_all (fun s -> is_ok s || (String.length s >= 4 && String.sub s 0 4 = "EXC ")) stages ->
@@ -446,8 +450,33 @@ let schema_missing (case0 : string) : bool =
   (let sp = (try String.index case0 ' ' with Not_found -> String.length case0) in
    not (List.mem_assoc (String.sub case0 1 (sp - 1)) (Lazy.force ctx_table)))
 
-(* rendering: C11.Precision.render_c11 (API-built float fields carry their output precision) *)
-let () = render_hook := render_c11
+(* rendering: C11.Precision.render_c11 (API-built float fields carry their output precision: the state
+   "~p~text" of the model is rendered at precision p).  The digits themselves are not C11's subject:
+   when the suite supplies a table of the REAL renderings of fresh (never copied) fields
+   (argv "rtable=<file>", lines "<hex state> <hex printed>", harness op RENDER) it is used for the
+   marked float states, so that the check does not depend on which modp_dtoa repair /repo is at;
+   without an entry the model of C08 (fast_atof / modp_dtoa) is used. *)
+let rtable : (string, n list) Hashtbl.t Lazy.t = lazy (
+  let tbl = Hashtbl.create 64 in
+  Array.iter (fun a ->
+    if String.length a > 7 && String.sub a 0 7 = "rtable=" then begin
+      try
+        let ic = open_in (String.sub a 7 (String.length a - 7)) in
+        (try while true do
+           match words (input_line ic) with
+           | [k; v] -> Hashtbl.replace tbl k (nlist_of_hex v)
+           | _ -> ()
+         done with End_of_file -> close_in ic)
+      with Sys_error _ -> ()
+    end) Sys.argv;
+  tbl)
+let () = render_hook := (fun ty v ->
+  match prec_split v with
+  | Some _ when is_float_type ty ->
+      (match Hashtbl.find_opt (Lazy.force rtable) (hex_of_nlist v) with
+       | Some r -> r
+       | None -> render_c11 ty v)
+  | _ -> render_c11 ty v)
 
 let () = run_protocol (fun case0 impl ->
   if schema_missing case0 then ("SKIP schema not built in this tier", true, true)
